@@ -112,6 +112,22 @@ Theorem C19_truthful_count : forall n P path nb,
 Proof. exact truthful_count_thm. Qed.
 Print Assumptions C19_truthful_count.
 
+(* the three modes together; [decision_stream_ok] and [optim_stream_ok] are the
+   hypotheses spelled out in the two theorems above *)
+Theorem C19_truthful :
+  (forall n P path stream, decision_stream_ok n P stream ->
+     exists ans, read_answer (with_header path (render_decision stream)) = Some ans /\
+                 truthful_decision n P ans) /\
+  (forall n P c path stream, optim_stream_ok n P c stream ->
+     exists ans, read_answer (with_header path (render_optim stream)) = Some ans /\
+                 truthful_optim n P c ans /\
+                 a_costs ans = map r_weight (filter is_sat_result stream)) /\
+  (forall n P path nb, nb = count_models n (fun m => sat_problem m P) ->
+     exists ans, read_answer (with_header path (render_count nb)) = Some ans /\
+                 truthful_count n P ans).
+Proof. exact truthful_thm. Qed.
+Print Assumptions C19_truthful.
+
 (* ---- the decision tree of main() ---- *)
 Theorem C19_dispatch : forall path fl,
   (f_help fl = true -> dispatch path fl = AHelp) /\
